@@ -24,6 +24,8 @@ static void vh_shm_path(const char *name, char out[64]) { char k[16]; vh_ipc_key
 /* semaphore that guards shm `name`: p_semaphore_new(platform_key_of_shm, ...) -> key derived from the shm key string */
 static void vh_shm_sem_path(const char *name, char out[64]) { char k[16], k2[16]; vh_ipc_key(name, VH_SHM_SUFFIX, k); vh_ipc_key(k, VH_SEM_SUFFIX, k2); snprintf(out, 64, "/dev/shm/sem.%s", k2 + 1); }
 static void vh_sem_path(const char *name, char out[64]) { char k[16]; vh_ipc_key(name, VH_SEM_SUFFIX, k); snprintf(out, 64, "/dev/shm/sem.%s", k + 1); }
+/* counter of a glibc named semaphore read from its backing file (64-bit new_sem: value is the low 32 bits of the first word); -1 if unreadable */
+static long vh_sem_file_value(const char *path) { unsigned int v; FILE *f = fopen(path, "rb"); size_t n; if (!f) return -1; n = fread(&v, sizeof v, 1, f); fclose(f); return n == 1 ? (long)v : -1; }
 static int vh_exists(const char *path) { struct stat st; return stat(path, &st) == 0; }
 static long long vh_fsize(const char *path) { struct stat st; return stat(path, &st) == 0 ? (long long)st.st_size : -1; }
 #endif
